@@ -122,9 +122,14 @@ def main(argv=None):
     obligations, discharged, by_backend, solver_time = 0, 0, {}, 0.0
     refuted, undecided, out_of_reach, errors, functions = [], [], [], [], []
     samples, vacuity = [], {'covers_sat': 0, 'covers_other': []}
+    soft_errors = []
     for r in results:
         if r['status'] == 'error':
-            errors.append({'contract': r['contract'], 'reason': r['reason']})
+            # a contract whose binding to the code broke (a renamed local that an invariant mentions, a call shape a hook
+            # does not expect, a function that moved): the obligations of that function are *undecided*, the bounded
+            # stand-in decides.  Only when nothing at all could be checked is the run an engine failure (exit 3).
+            soft_errors.append({'contract': r['contract'], 'reason': r['reason']})
+            out_of_reach.append({'function': r['contract'], 'reason': 'contract binding failed: ' + r['reason'][-300:].replace('\n', ' ')})
             continue
         if r['status'] == 'out_of_reach':
             out_of_reach.append({'function': r['contract'], 'reason': r['reason']})
@@ -177,6 +182,12 @@ def main(argv=None):
         return None
 
     os.makedirs(os.path.join(OUT, 'replays'), exist_ok=True)
+    import glob
+    for old in glob.glob(os.path.join(OUT, 'replays', '%s-*.json' % a.prop)):
+        try:
+            os.unlink(old)         # replay files of earlier runs of this property
+        except OSError:
+            pass
     n = 0
     for o in refuted:
         k = is_known(o['name'])
@@ -252,6 +263,11 @@ def main(argv=None):
           'bounded stand-ins: %d cases, %d failures; %.1fs'
           % (a.prop, discharged, obligations, len(functions), by_backend, len(refuted), len(undecided), len(out_of_reach),
              sum(b['cases'] for b in bounded), len(standin_fail), time.time() - t0))
+    for e in soft_errors:
+        print('ENGINE-NOTE contract binding failed for %s (its obligations are undecided): %s'
+              % (e['contract'], e['reason'][-400:].replace('\n', ' ')))
+    if results and len(soft_errors) == len(results):
+        errors.append({'contract': '*', 'reason': 'no contract of this property could be bound to the code'})
     if errors:
         for e in errors:
             print('ENGINE-ERROR %s: %s' % (e['contract'], e['reason']))
@@ -265,8 +281,10 @@ def main(argv=None):
             print('ENGINE-ERROR vacuous contract: %s' % bad)
             return 3
     if violations:
-        for path, nowitness in violations:
+        for path, nowitness in violations[:12]:
             print('VIOLATION property=%s replay=%s%s' % (a.prop, path, ' no-failing-input-found' if nowitness else ''))
+        if len(violations) > 12:
+            print('(%d further refuted obligations: see coverage.refuted in the evidence file and replays/)' % (len(violations) - 12))
         return 1
     return 0
 
